@@ -26,6 +26,7 @@ FrameOk(r) ==
 Ok(r) == CASE r.k = "cipher" -> CipherOk(r)
            [] r.k = "stream" -> StreamOk(r)
            [] r.k = "frame" -> FrameOk(r)
+           [] r.k = "big" -> r.outOK /\ r.callerIntact     \* writes beyond the pooled sizes (compared by the harness' own mask)
            [] OTHER -> FALSE
 
 Bad == {i \in 1..Len(R) : ~Ok(R[i])}
